@@ -189,6 +189,161 @@ CLAIMS = {
                   "graph, reset-before-use and pairing rules, frozen exception tables with checked "
                   "justifications",
         design="3/C15"),
+    "C03": dict(
+        text="Static decision of the formula/constant/pairing clauses of C03: dipole_dipole_interaction equals "
+             "(d1.d2 - 3(d1.n)(d2.n))/(4 pi eps0 eps_r R^3) as an algebraic identity (index algebra against the "
+             "formula written in the same vocabulary); the unit-system constants of core/units.py fold to the "
+             "Debye^2/Angstrom^3 -> rad/fs value computed independently from scipy.constants (1e-8 relative); "
+             "every element store into the coupling matrix has its mirror with the same value in the same block "
+             "and couplings are stored in internal units; build() runs its implementation inside "
+             "energy_units('int') and forwards all arguments (so the built system does not depend on the "
+             "caller's units); state energy sums over every molecule, one-exciton and two-site couplings and "
+             "the transition dipole read the molecules the model prescribes. Not decided: ordering of states "
+             "by band, two-exciton block values, relabelling invariance of spectra (combinatorial/spectral).",
+        note=BASE_NOTE + "scipy.constants values; dipoles in Debye, lengths in Angstrom.",
+        technique="index/scalar algebra on the interaction formula, numeric constant folding of module "
+                  "constants, store-pairing rule, lexical units-context rule, statement-level rules",
+        design="3/C03"),
+    "C06": dict(
+        text="Static decision of the structural clauses of C06: both rate kernels write the depopulation rate as "
+             "the negative sum of the off-diagonal column on a zero diagonal, so every column sums to zero "
+             "(index algebra, all dimensions and inputs); the uphill Redfield coefficient equals the downhill one "
+             "with exchanged indices times exp(-(E_i-E_j)/(kB T)), both reading the transformed correlation "
+             "function at the same positive frequency, cut-off symmetric, energies from raw internal-unit data "
+             "(scalar algebra on the branches of _set_rates) - hence k(a<-b)/k(b<-a) = exp(-(E_a-E_b)/kT) by "
+             "construction; every analytical spectral-density formula types to odd under w -> -w (parity "
+             "types); the thermal factor is (1 + coth(w/2kT)) in all three branches with the correct "
+             "zero-frequency limit; the tensor's population block is 2 Re sum_m K_m[a,b] Lambda_m[a,b] with the "
+             "same transition frequencies as the rate matrix. Not decided: non-negativity, golden-rule values, "
+             "accuracy of the numerical half-Fourier transform.",
+        note=BASE_NOTE + "coth identity behind C(-w)=exp(-w/kT)C(w) is stated, not re-proved.",
+        technique="index-algebra interpretation of the rate kernels, scalar algebra on branch expressions under "
+                  "index exchange, parity-type inference over formula ASTs, expression equivalence checks",
+        design="3/C06"),
+    "C09": dict(
+        text="Static decision of the structural clauses of C09: no composite-building constructor reads a loop "
+             "variable left over from an earlier loop, the dispatch variable and the builder arguments are "
+             "taken from the current iteration (def-use); add_to_data/add_to_data2/__add__ of both classes add "
+             "data and reorganisation energy, append all components, require the same axis, (correlation "
+             "functions) refuse different temperatures, rebuild operands from stored parameters under internal "
+             "units; every component builder accumulates (one open finding: CP29) and registers its "
+             "temperature; the external APIs on these paths exist. Not decided: measured reorganisation "
+             "energies and FFT parity (numerics).",
+        note=BASE_NOTE + "DFunction._add_me adds to existing data.",
+        technique="def-use analysis of loop variables (leaked-variable rule), statement-level bookkeeping rules "
+                  "with sibling comparison, accumulate-not-overwrite rule, API-existence resolution",
+        design="3/C09"),
+    "C10": dict(
+        text="Thin static claim for C10 (the Poisson law itself is numerical): shift = sqrt(2 S) and get_HR is "
+             "its inverse; the ladder operators are a[n-1,n]=sqrt(n) and its transpose, the generator of the "
+             "shift operator is (d a^+ - conj(d) a)/sqrt(2) and anti-Hermitian (index algebra), exponentiated "
+             "as S diag(exp) S^-1 - the necessary structure for unitary overlaps with displacement sqrt(S); "
+             "fc_factor multiplies one overlap per mode over all modes, the unapproximated signature generator "
+             "is ndindex over all level counts, dipoles and couplings carry that factor; APIs on the full-space "
+             "path exist. Not decided: overlap values, basis truncation, approximate generators.",
+        note=BASE_NOTE + "Poisson statistics of the displaced oscillator (textbook).",
+        technique="scalar/index algebra on the Huang-Rhys convention and the generator, statement-level rules, "
+                  "API-existence resolution",
+        design="3/C10"),
+    "C11": dict(
+        text="Static decision of the structural clauses of C11: objects transformed into the eigenbasis in "
+             "_calculate_aggregate are transformed back with the inverse matrix under the same condition, with "
+             "no return in between (purity); the half-sided transform is laid on the grid it is returned on - "
+             "hfft gets n = 2*Nt, the reversal of the fftshift-ordered even-length array is compensated by "
+             "roll(.,1), the central cut is [Nt//2 : Nt+Nt//2], the axis is the matching half of the 2Nt-point "
+             "conjugate axis, transition frequencies are taken relative to the RWA frequency (both transform "
+             "sites, all three axis sites); dipole strengths are scalar products d.d (index algebra), so spectra "
+             "scale with the square of a common factor and are rotation invariant; the frequency prefactor is "
+             "applied iff raw is false. Not decided: numerical equality with the Fourier integral, sum rules, "
+             "relabelling invariance.",
+        note=BASE_NOTE + "numpy.fft.hfft length semantics; index arithmetic of fftshift/flipud for even lengths.",
+        technique="pairing rule on transformations, shape/offset rules for the FFT pipeline, index-algebra check "
+                  "of dipole strengths, placement rules",
+        design="3/C11"),
+    "C12": dict(
+        text="Static decision of the structural clauses of C12: every numpy/scipy attribute used on the call "
+             "closure of pathway construction, pathway generation and the 2D calculators exists in the "
+             "installed libraries; M4 folds to [[4,-1,-1],[-1,4,-1],[-1,-1,4]]/30; the field factor F4e[k] and "
+             "the dipole factor F4n[k] are, for each k, the same perfect matching of the four interactions, "
+             "the three matchings are all three, and the prefactor is sign * F4e.M4.F4n * population (index "
+             "algebra on the defining stores) - the conditions under which F4e.M4.F4n is the exact isotropic "
+             "average; every factor is a product of two scalar products covering the four vectors once each, "
+             "hence invariant under a common rotation of dipoles or of polarisations and of degree one in each "
+             "dipole; signal and process tables partition the pathway types (total = rephasing + "
+             "non-rephasing + double coherence). Not decided: cancellation of cross peaks for uncoupled "
+             "molecules (values of line shapes and two-exciton energies).",
+        note=BASE_NOTE + "Textbook isotropic rank-four average.",
+        technique="API-existence resolution over call closures, constant folding, index-algebra comparison of the "
+                  "orientational factors, table partition check",
+        design="3/C12"),
+    "C13": dict(
+        text="Static decision of the structural clauses of C13: every transform of centred data goes "
+             "ifftshift -> (i)fft -> fftshift (fftshift on the input is wrong for all odd lengths) and "
+             "un-shifted inputs are the FFT-ordered Hermitian extensions built in place; forward and backward "
+             "prefactors multiply to one under the conjugate step dw = 2 pi/(N dt), for both pairings and the "
+             "upper-half factor 2 (scalar algebra); the Hermitian extension stores conj(y[j]) at extended "
+             "length - j for j = 1..N-1; the axis conjugation maps a time axis to a frequency axis and back to "
+             "the same start, step, length and stored conjugate start, and vice versa, for complete and "
+             "upper-half axes with N//2 kept symbolic (covers even and odd), odd upper-half frequency axes are "
+             "refused. Not decided: equality with the direct Fourier sum as numbers.",
+        note=BASE_NOTE + "Model fftshift(c*fftfreq(n,d))[k] = c*(k-n//2)/(n*d); ifft(fft(x)) = x.",
+        technique="call-nesting rule on FFT calls, scalar algebra over a small axis-expression evaluator, affine "
+                  "index relations",
+        design="3/C13"),
+    "C14": dict(
+        text="Static decision of the structural clauses of C14: both Boltzmann sites compute "
+             "exp(-(E - min E)/(kB T)) normalised by its own sum (shift invariant: no temperature at which all "
+             "weights underflow), the division by kB T is dominated by the zero-temperature guard whose branch "
+             "puts the population on argmin E (or index 0 inside an eigenbasis context), the weights are "
+             "w/sum(w) on the diagonal of a fresh zero matrix, the impulsive state is D.rho.D; a path-sensitive "
+             "dataflow shows that values read from X.data under eigenbasis_of(X) are wrapped into basis-managed "
+             "objects only under eigenbasis_of(X) (the state is the same physical state inside and outside a "
+             "context); energies divided by kB_intK*T are read under energy_units('int') (who-may-call + "
+             "lexical rule). Not decided: positivity beyond diagonal non-negative weights.",
+        note=BASE_NOTE + "exp(0)=1 keeps the normalising sum >= 1.",
+        technique="def-use pattern rules on Boltzmann exponents, guard-dominance rule, path-sensitive taint "
+                  "(basis typing) over structured control flow, who-may-call and lexical units-context rules",
+        design="3/C14"),
+    "C18": dict(
+        text="Static decision of the structural clauses of C18: for DataSaveable and MatrixData the extension "
+             "lists, save dispatch and load dispatch agree, each format pairs a writer with the matching reader "
+             "and key (npz 'data', mat 'data'), axis packing is undone on load, every numpy/scipy call on these "
+             "paths exists, both text importers fall back to the complex parser; whole-object save/load go "
+             "through one versioned pickle parcel; storage of units-managed classes is internal (C05-U5 "
+             "instances), so pickles are unit-context free. One open finding: objects that are Saveable and "
+             "BasisManaged pickle their basis tag (saving inside an eigenbasis context). Not decided: byte "
+             "contents of pickles, scipy's shape conventions for .mat.",
+        note=BASE_NOTE + "Writers/readers of one numpy/scipy format are mutually inverse.",
+        technique="table agreement by constant folding of literal lists and dispatch chains, writer/reader "
+                  "pairing, API-existence resolution, sibling comparison, mechanism rule for pickled basis tags",
+        design="3/C18"),
+    "C19": dict(
+        text="Static decision of C19's structural content: the process and signal tables partition the pathway "
+             "types; each of the view helpers sums, into a fresh zero array, exactly the stored cells of its "
+             "class; exhaustive finite evaluation (5 storage resolutions x 4 data-type classes x tag) of the "
+             "getter and setter decision trees combined with the branches of _add_data shows that every "
+             "admissible addition reads the addressed cell, adds and writes the same cell, and every other "
+             "combination is refused before any store (finer-than-storage additions refused); conversion paths "
+             "strictly descend, every step has an elementary conversion that builds a new storage from sums "
+             "over the partition and only then replaces the old one, processes->signals is absent, raising the "
+             "resolution is refused. Hence the total read back is the sum of what was added.",
+        note=BASE_NOTE + "dict/list semantics.",
+        technique="constant folding (partition check), exhaustive finite-configuration evaluation of "
+                  "comparison-only decision trees, statement-level rules on accumulators and conversions",
+        design="3/C19"),
+    "C20": dict(
+        text="Static decision of C20 for all process counts, ranks and ranges: the per-rank loop body of "
+             "_calculate_ranges is interpreted with the scalar algebra under each of the five ordering classes "
+             "of (rank vs 0, rank vs remainder) - all the decision structure can distinguish - and the "
+             "resulting affine boundaries satisfy N1(0)=start, N2(r)=N1(r+1) for every feasible transition "
+             "between classes, N2(size-1)=stop given stop-start=q*size+rem, block sizes in {q,q+1}; the result "
+             "depends on start; wrappers distribute range(0,len); the three callers accumulate into a zero "
+             "array inside the parallel region and sum-reduce it before the region closes. Not decided: MPI "
+             "behaviour.",
+        note=BASE_NOTE + "// and % satisfy the division identity; allreduce(sum) adds.",
+        technique="scalar-algebra abstract interpretation per ordering class (exhaustive case split) with "
+                  "polynomial identity checking, def-use, region ordering/pairing rule",
+        design="3/C20"),
 }
 
 NOT_YET = "check not built yet in this round (see DESIGN.md section 3 for the planned rules)"
